@@ -752,6 +752,18 @@ impl Wallet {
         }
 
         //
+        // from here on the slip is committed to this transaction, exactly like the
+        // slips generate_slips selects: it must not be listed as unspent any more,
+        // or the call to generate_slips below (and any later transaction) could
+        // pick it a second time.
+        //
+        if let Some(slip) = self.slips.get_mut(&utxo_key) {
+            slip.spent = true;
+            self.available_balance -= slip.amount;
+        }
+        self.unspent_slips.remove(&utxo_key);
+
+        //
         // CREATE-NFTs Transactions have the following structure
         //
         // input slip #1 -- provides UUID
@@ -885,6 +897,22 @@ impl Wallet {
         //
         } else if nft_input_amount < nft_create_deposit_amt {
             let additional_needed = nft_create_deposit_amt - nft_input_amount;
+            // what generate_slips can draw on has to cover the rest of the deposit, otherwise
+            // the transaction would pay out more than it consumes. the NFT slip goes back.
+            if self.get_spendable_balance(latest_block_id, genesis_period) < additional_needed {
+                if let Some(slip) = self.slips.get_mut(&utxo_key) {
+                    slip.spent = false;
+                    self.available_balance += slip.amount;
+                }
+                self.unspent_slips.insert(utxo_key);
+                return Err(Error::new(
+                    ErrorKind::NotFound,
+                    format!(
+                        "not enough spendable funds for the NFT deposit. required : {:?}",
+                        nft_create_deposit_amt
+                    ),
+                ));
+            }
             let (generated_inputs, generated_outputs) =
                 self.generate_slips(additional_needed, network, latest_block_id, genesis_period);
             additional_input_slips = generated_inputs;
